@@ -6,6 +6,7 @@ import (
 	"fmt"
 	"log"
 	"net"
+	"net/http"
 	"net/http/httptest"
 	"os"
 	"path/filepath"
@@ -218,7 +219,10 @@ func NewWorld(c Cfg) (*World, error) {
 		webui.SetupRoutes(web.Router.PathPrefix(prefix("/serve/")).Subrouter())
 		rest.SetupRoutes(web.Router.PathPrefix(prefix("/api/")).Subrouter())
 		web.NewServer(conf, w.Manager, w.Hub)
-		w.HTTP = httptest.NewUnstartedServer(web.Router)
+		w.HTTP, err = newHTTPServer(web.Router)
+		if err != nil {
+			return nil, err
+		}
 		w.HTTPLog = &SyncBuffer{}
 		w.HTTP.Config.ErrorLog = log.New(w.HTTPLog, "", 0)
 		w.HTTP.Start()
@@ -233,6 +237,24 @@ func NewWorld(c Cfg) (*World, error) {
 
 // Close stops the hub and HTTP server, waits for sessions and removes the scratch dir.
 // The hub is synced first so that no event goroutine is left behind to hit a stopped hub.
+// newHTTPServer is httptest.NewUnstartedServer with patience: under load (thousands of short
+// connections a second from fuzzing and the shutdown checks of parallel shards) the kernel can
+// run out of local ports for a moment; httptest panics then, this waits for ports to come back.
+func newHTTPServer(h http.Handler) (*httptest.Server, error) {
+	var l net.Listener
+	var err error
+	for deadline := time.Now().Add(3 * time.Minute); ; {
+		if l, err = net.Listen("tcp", "127.0.0.1:0"); err == nil {
+			break
+		}
+		if time.Now().After(deadline) {
+			return nil, fmt.Errorf("no local port for the HTTP server in 3 minutes: %v", err)
+		}
+		time.Sleep(250 * time.Millisecond)
+	}
+	return &httptest.Server{Listener: l, Config: &http.Server{Handler: h}}, nil
+}
+
 // assemble fills w from server.FullAssembly(conf).
 func (w *World) assemble(c Cfg, conf *config.Root) error {
 	w.Dir = TempDir()
@@ -269,7 +291,10 @@ func (w *World) assemble(c Cfg, conf *config.Root) error {
 	w.hubDone = make(chan struct{})
 	go func() { w.Hub.Start(w.Ctx); close(w.hubDone) }()
 	if !c.NoHTTP {
-		w.HTTP = httptest.NewUnstartedServer(web.Router)
+		var err error
+		if w.HTTP, err = newHTTPServer(web.Router); err != nil {
+			return err
+		}
 		w.HTTPLog = &SyncBuffer{}
 		w.HTTP.Config.ErrorLog = log.New(w.HTTPLog, "", 0)
 		w.HTTP.Start()
